@@ -101,6 +101,10 @@ type Schedule struct {
 	After string `json:"after,omitempty"`
 	// Stalls: at global yield number N the running task is descheduled for D ns of simulated time.
 	Stalls [][2]int64 `json:"stalls,omitempty"`
+	// YieldCostNs: the simulated CPU is this slow — every yield point passed by whichever task
+	// runs costs this much simulated time (0: computing takes no simulated time at all). The
+	// clock is advanced before the code under test reads it and at least every few hundred yields.
+	YieldCostNs int64 `json:"yieldCostNs,omitempty"`
 }
 
 type MapOrder struct {
@@ -261,6 +265,9 @@ type Outcome struct {
 	Ops         []OpOutcome            `json:"ops"`
 	Yields      int64                  `json:"yields"`
 	Switches    int64                  `json:"switches"`
+	CPUSettles  int64                  `json:"cpuSettles,omitempty"` // times the simulated clock was advanced for CPU time used
+	CPUNs       int64                  `json:"cpuNs,omitempty"`      // simulated CPU time charged
+	ClockReads  int64                  `json:"clockReads,omitempty"` // clock reads by the code under test
 	SwitchSites int                    `json:"switchSitesDistinct"`
 	SitesHit    int                    `json:"yieldSitesReached"`
 	SimNs       int64                  `json:"simNs"`
